@@ -95,6 +95,8 @@ pub fn tunicode_pool(long_tokens: bool) -> Vec<TermSpec> {
         TermSpec::str("Ukana", "あい"),
         TermSpec::regex("Ugreek", "[α-ω]+", &["αβγ", "ω", "λλ"]),
         TermSpec::regex("Uhan", "[一-龥]+", &han),
+        // a token that spans lines (positions after it depend on the newlines inside it)
+        TermSpec::regex("Mline", "\\[[a-zé\\n]*\\]", &["[a\nb]", "[\n]", "[é\n\nz]", "[ab]"]),
     ]
 }
 
@@ -847,8 +849,11 @@ pub fn layout_pool(kind: Option<LayoutKind>) -> &'static [&'static str] {
         Some(LayoutKind::Ws) => L_WS,
         Some(LayoutKind::WsLine) => L_LINE,
         Some(LayoutKind::WsLineBlock) | Some(LayoutKind::WsLineBlockPlus) => L_BLOCK,
+        Some(LayoutKind::WsPair) => L_PAIR,
     }
 }
+
+const L_PAIR: &[&str] = &["", " ", "~^", " ~^ ", "~^~^", "\n~^\n", "", "~^ ~^", "\t"];
 
 /// Render tokens with layout runs drawn from the pool of the given layout mode.
 /// `minimal` uses the empty layout wherever the terminals permit.
